@@ -320,6 +320,7 @@ def hypsB (key : List Bytes) (db : DB) (t : Tape) (absent : List Bytes) : Bool :
       db.all (fun p => p.2.all fun x => (x.length : Int) == cfg.idSize) &&
       keys.all (fun k => match k with | .ok g => !tapeBytes.contains g | .error _ => false) &&
       nodupBy (keys.map fun k => match k with | .ok g => g | .error _ => []) &&
+      nodupBy (drawsLen cfg.dsz t) &&        -- C05 (`DP17.ht_shape`): no random filler key of the hash table repeats
       perms.all (fun p => p.isPerm (List.range p.length)) &&
       -- C02: no probe of an absent keyword is in the hash table
       (match setup cfg lv key db t with
